@@ -1,10 +1,51 @@
-(* C04 - Decoding untrusted bytes is panic-free, proportionate and stable. *)
+(* C04 - Decoding untrusted bytes is panic-free, proportionate and stable.
+   Statements only; proofs in Proofs/WireDecode.v.  The model is that of the code after the
+   repairs of D3 (DecodeDir size wrap) and D4 (allocation before the input is known to be there). *)
 From Coq Require Import List NArith ZArith Bool.
-From P9 Require Import Base.Res Base.Bytes Model.WireTypes Model.Spec9P Model.Wire.
+From P9 Require Import Base.Res Base.Bytes Model.WireTypes Model.Spec9P Model.Wire Proofs.WireDecode.
 Import ListNotations.
 Open Scope N_scope.
 
-(* the two-byte inputs that made DecodeDir panic (D3) are plain errors in the model of the repaired code *)
+(* 1. For EVERY byte string, decoding as a message and as a directory entry ends in a value or an
+      error: the Panic and Hang outcomes are unreachable (termination is by construction: the
+      decoders are structurally recursive on the kind list / on a count below 2^16). *)
+Theorem C04_no_panic : forall bs, calm (dec_fcall bs) /\ calm (decode_dir bs).
+Proof. intros bs. split; [exact (calm_dec_fcall bs) | exact (calm_decode_dir bs)]. Qed.
+Print Assumptions C04_no_panic.
+
+(* 2. Whatever length and count fields the input claims, the sizes the decoder passes to make()
+      on the path it takes sum to at most 19 bytes per input byte (20 for DecodeDir).
+      PARTIAL with respect to the property text: this bounds what the repository's code requests;
+      what the Go runtime and encoding/binary add on top is measured by the harness, not proved. *)
+Theorem C04_alloc_partial : forall bs, alloc_fcall bs <= 19 * len bs /\ alloc_decode_dir bs <= 20 * len bs.
+Proof. intros bs. split; [exact (alloc_fcall_linear bs) | exact (alloc_decode_dir_linear bs)]. Qed.
+Print Assumptions C04_alloc_partial.
+
+(* 3. Whenever decoding succeeds, the value is wire-representable, and re-encoding it and decoding
+      that again yields the same value (allb: the elements of the input are bytes). *)
+Theorem C04_stable : forall bs f, allb bs -> len bs < M32 - 16 -> dec_fcall bs = Ok f ->
+  wf_fcall f = true /\ dec_fcall (enc_fcall f) = Ok f.
+Proof. exact dec_fcall_stable. Qed.
+Print Assumptions C04_stable.
+
+Theorem C04_stable_dir : forall bs fs r, allb bs -> decode_dir bs = Ok (fs, r) ->
+  wf_dir fs = true /\ decode_dir (enc_dir fs) = Ok (fs, []).
+Proof. exact decode_dir_stable. Qed.
+Print Assumptions C04_stable_dir.
+
+(* non-vacuity and the witnesses of the repaired defects *)
 Example C04_d3_witnesses : decode_dir [254; 255] = Err E_UEOF /\ decode_dir [255; 255] = Err E_UEOF.
 Proof. split; vm_compute; reflexivity. Qed.
 Print Assumptions C04_d3_witnesses.
+
+Example C04_d4_witnesses :
+  (* a 7-byte Rread claiming 2^32-1 bytes of data, a 13-byte Twalk claiming 65535 names *)
+  dec_fcall [117; 0; 0; 255; 255; 255; 255] = Err E_UEOF /\ alloc_fcall [117; 0; 0; 255; 255; 255; 255] = 0 /\
+  dec_fcall [110; 0; 0; 1; 0; 0; 0; 2; 0; 0; 0; 255; 255] = Err E_UEOF /\ alloc_fcall [110; 0; 0; 1; 0; 0; 0; 2; 0; 0; 0; 255; 255] = 0.
+Proof. repeat split; vm_compute; reflexivity. Qed.
+Print Assumptions C04_d4_witnesses.
+
+Example C04_stable_nonvacuous :
+  exists f, dec_fcall [110; 5; 0; 1; 0; 0; 0; 2; 0; 0; 0; 1; 0; 1; 0; 97; 9; 9] = Ok f /\ fc_type f = 110.
+Proof. eexists. split; vm_compute; reflexivity. Qed.
+Print Assumptions C04_stable_nonvacuous.
